@@ -43,6 +43,8 @@ func (eval Evaluator) ApplyEvaluationKey(ctIn *Ciphertext, evk *EvaluationKey, o
 	level := utils.Min(ctIn.Level(), opOut.Level())
 	ringQ := eval.params.RingQ().AtLevel(level)
 
+	opOut.Resize(opOut.Degree(), level)
+
 	NIn := ctIn.Value[0].N()
 	NOut := opOut.Value[0].N()
 
